@@ -1,5 +1,5 @@
 """Shared driver for 'TLC enumerates schemas x documents with verdict vectors -> replay through Validate'."""
-import json
+import json, os
 import vlib
 
 
@@ -112,8 +112,61 @@ def diff_tier(work, rep, hbin, prop, n):
         cls = _schema_class(e["schema"], e["env"])
         if e["op"] == "example":
             cls = "C15"
+        elif e["op"] == "check":
+            cls = "C04" if "violating-example" in m["what"] else "C08"
         if cls != prop:
             continue
         bad.append({"schema": e["text"], "doc": e.get("doctext", e.get("out")), "want": m["what"], "got": {"ok": e.get("ok"), "code": e.get("code")}, "abstract": e["schema"], "env": e["env"],
                     "opt": e["opt"], "what": "differs from the frozen copy and from the requirement"})
+    return bad
+
+
+def lex_diff_tier(work, rep, hbin, prop, n):
+    """Differential amplification at the byte level (difflex): texts on which the frozen copy and the current tree differ are judged by
+    TraceJsonText (verdict: C05, position: C17), TraceLen / TraceSchemaLen / TraceEnumLen (C14); a panic of the current tree is C07's."""
+    d = work.path("difflex")
+    os.makedirs(d, exist_ok=True)
+    p = vlib.run_harness(hbin, ["difflex", "-corpus", os.path.join(vlib.REPO, "testdata"), "-n", str(n), "-outdir", d], timeout=6000)
+    if p.returncode != 0:
+        raise vlib.Infra("difflex failed: " + p.stderr.decode()[-2000:])
+    s = summary_of(p.stderr)
+    rep.notes["differential_texts"] = s
+    rep.cov["evaluations"] += s["texts"] * 6
+    bad = []
+
+    def judge(fname, module, handler):
+        path = os.path.join(d, fname)
+        lines = list(vlib.read_ndjson(path))
+        if not lines:
+            return
+        if prop == "C07":
+            for e in lines:
+                if e.get("panic") or str(e.get("msg", "")).startswith("panic") or (e.get("msg") and not e.get("ok") and fname != "diff-jsoncheck.ndjson" and "panic" in str(e.get("msg"))):
+                    bad.append({"kind": "panic", "text": e["text"], "what": "panic: " + str(e.get("panic") or e.get("msg"))})
+            return
+        r = vlib.tlc(work, module, module + ".cfg", consts={"TraceFile": '"%s"' % path}, timeout=12000, heap="24g")
+        rep.add_tlc(r, "%s over %d calls on which the frozen copy and the current tree differ" % (module, len(lines)))
+        if r.distinct != len(lines) + 1:
+            raise vlib.Infra("trace not consumed: %d states for %d events" % (r.distinct, len(lines)))
+        for l in r.tagged("@@MISMATCH"):
+            m = json.loads(l)
+            handler(lines[m["line"] - 1], m)
+
+    def h_json(e, m):
+        w = str(m.get("want", ""))
+        if w.startswith("position:"):
+            if prop == "C17":
+                bad.append({"kind": "position", "text": e["text"], "what": "error at %s, first dead byte at %s" % (e.get("pos"), w[9:]), "bytes": e["bytes"], "trailing": e["trailing"]})
+        elif prop == "C05":
+            bad.append({"kind": "verdict", "text": e["text"], "what": "Check says %s, the grammar says %s" % (e["ok"], w), "bytes": e["bytes"], "trailing": e["trailing"]})
+
+    def h_len(e, m):
+        if prop == "C14":
+            bad.append({"kind": "len", "text": e["text"], "what": str(m.get("what")), "ok": e["ok"], "len": e["len"], "msg": e.get("msg")})
+
+    judge("diff-jsoncheck.ndjson", "TraceJsonText", h_json)
+    if prop in ("C14", "C07"):
+        judge("diff-jsonlen.ndjson", "TraceLen", h_len)
+        judge("diff-schemalen.ndjson", "TraceSchemaLen", h_len)
+        judge("diff-enumlen.ndjson", "TraceEnumLen", h_len)
     return bad
